@@ -36,6 +36,23 @@ OUT_URLS = {
     "https-redirect-http": ["https://as.nuts-verif.nl/redir302", "https://as.nuts-verif.nl/redir307"],
 }
 EMBEDDED_CONTEXTS = ["https://nuts.nl/credentials/v1", "https://www.w3.org/2018/credentials/v1"]
+# JSON-LD context URLs that are NEAR an entry of the allow-list without being one: relation -> [(template over the entry, what the template
+# needs of the entry)].  The driver takes the entry from the configuration of the real engine (jsonld.DefaultContextConfig + the operator's
+# additions), {M} is a label unique to the action.  Only forms are listed that are a DIFFERENT URL than the entry under every reading
+# (no fragment / trailing-slash / letter-case variants: a loader that normalises before comparing would be right to accept those).
+NEAR_TEMPLATES = {
+    "ext-path":     [("{ENTRY}/{M}", ""), ("{ENTRY}/ctx/{M}.jsonld", "")],
+    "ext-name":     [("{ENTRY}-draft-{M}", "path"), ("{ENTRY}{M}", "path"), ("{ENTRY}.{M}.jsonld", "path"), ("{ENTRY}{M}.io/ctx/v1", "pathless")],
+    "ext-query":    [("{ENTRY}?v={M}", "")],
+    "ext-host":     [("{ENTRY}.{M}.ctx-mirror.net/ctx/v13", "pathless"), ("{ENTRY}.{M}.nuts-verif.nl", "pathless")],
+    "ext-userinfo": [("{ENTRY}@{M}.ctx-mirror.net/ctx/v13", "pathless"), ("{ENTRY}:x@{M}.ctx-mirror.net/ctx/v13", "pathless")],
+    "truncated":    [("{PARENT}", "path"), ("{PARENT}/", "path"), ("{CHOP}", "path")],
+    "same-host":    [("{ORIGIN}/ctx/{M}.jsonld", "path")],     # (below a path-less entry this would be ext-path)
+    "scheme-http":  [("http://{ENTRYNOSCHEME}", "https")],
+    "embeds":       [("https://{M}.ctx-mirror.net/ctx/{ENTRY}", ""), ("https://{M}.ctx-mirror.net/ctx?u={ENTRY}", "")],
+}
+# the operator's additions to jsonld.contexts.remoteallowlist in the jsonld layer (the assembled system has its own: see the driver)
+OPERATOR_ENTRIES = ["https://contexts.nuts-verif.nl", "https://ctx.nuts-verif.nl/care/2024/v1", "http://{PLAIN}/ctx/an-allow-listed-context.jsonld"]
 INSECURE_URL = {"http-name", "https-ip", "http-ip", "reserved-tld", "reserved-addr"}
 UNUSABLE_URL = {"empty"}
 OPTION_KEYS = ["strictmode", "url", "tls.certfile", "tls.certkeyfile", "tls.truststorefile", "tls.offload", "tls.certheader", "crypto.storage",
@@ -73,7 +90,22 @@ def concrete_vec(v, rnd, url=None):
     return cv
 
 
-def system_acts(v, rnd, cid):
+def near_acts(pact, variants, operator=None):
+    """Concretisations of one TLC-enumerated near-miss action: `variants` = [(template index, entry index)]."""
+    a = pact["act"]
+    out = []
+    for ti, ei in variants:
+        tmpl, need = NEAR_TEMPLATES[a["arg"]][ti % len(NEAR_TEMPLATES[a["arg"]])]
+        if a["anchor"] == "mapped-only" and "pathless" in need:
+            continue      # every localmapping-only key has a path (spec: NearExpressible)
+        act = dict(kind="jsonld", arg=a["arg"], entry=a["entry"], anchor=a["anchor"], url=tmpl, need=need, variant=ei)
+        if operator and a["entry"] == "with-url":
+            act["operator"] = operator
+        out.append(act)
+    return out
+
+
+def system_acts(v, rnd, cid, near=()):
     acts = [dict(kind="dummy-sign", arg="none", entry="none", url=""), dict(kind="dummy-verify", arg="none", entry="none", url=""),
             dict(kind="jsonld", arg="unlisted", entry="with-url", url="http://{PLAIN}/ctx/unlisted-%s.jsonld" % cid),
             dict(kind="jsonld", arg="listed", entry="with-url", url=""),
@@ -86,6 +118,10 @@ def system_acts(v, rnd, cid):
         if e == "vdr-didweb" and "web" not in v["did"].split(","):
             continue      # no did:web resolver is registered on such a node
         acts.append(dict(kind="outbound", arg=u, entry=e, url=rnd.choice(OUT_URLS[u])))
+    # the allow-list of the assembled system is the "with-url" one; a seeded handful of the near-miss context classes per node
+    cand = [p for p in near if p["act"]["entry"] == "with-url"]
+    for p in rnd.sample(cand, min(5, len(cand))):
+        acts += near_acts(p, [(rnd.randrange(6), rnd.randrange(6))])[:1]
     return acts
 
 
@@ -199,6 +235,16 @@ def judge_act(case, a, pact):
             viol.append((dict(kind="refused-nonstrict", option="auth.contractvalidators=dummy", action=kind), where + ": " + a["err"][:160]))
     elif kind == "jsonld":
         fetched = any(q["path"].startswith("/ctx/") for q in a["requests"])
+        if a["arg"] in NEAR_TEMPLATES:
+            # the URL is no entry of the allow-list (the driver checked that against the engine's configuration): an unlisted remote context
+            if a["verdict"] == "error":
+                drift.append("driver problem (%s): %s" % (where, a["err"][:200]))
+            elif strict and (performed or a["requests"] or a["dials"]):
+                viol.append((dict(kind="insecure-accepted", option="jsonld.unlisted-remote-context", near=a["arg"]),
+                             where + " (near allow-list entry %s, %s): %s, dials %s, %d request(s) received" % (
+                                 a.get("near_to"), a.get("anchor"), "loaded" if performed else "refused after fetching", a["dials"], len(a["requests"]))))
+            elif not strict and not performed:
+                viol.append((dict(kind="refused-nonstrict", option="jsonld.unlisted-remote-context", near=a["arg"]), where + ": " + a["err"][:160]))
         if a["arg"] == "unlisted":
             if strict and (performed or fetched):
                 viol.append((dict(kind="insecure-accepted", option="jsonld.unlisted-remote-context"), where))
@@ -232,7 +278,7 @@ def judge_act(case, a, pact):
 
 
 def akey(strict, dummy, a):
-    return (bool(strict), bool(dummy), a["kind"], a["arg"], a["entry"])
+    return (bool(strict), bool(dummy), a["kind"], a["arg"], a["entry"], a.get("anchor") or "none")
 
 
 # ---------------------------------------------------------------------------------------------- run
@@ -279,6 +325,10 @@ def run(prop, tier, seed, replay=None):
         snapw = vlib.tlc("MCConfig", "Config.witnessSnapshotFlag.cfg", workers=2, timeout=300)
         if snapw.violation != "NoPlainHttpInStrict":
             raise Inconclusive("the model does not distinguish when a client is constructed (%s %s)" % (snapw.violation, snapw.error))
+        for wcfg in ("Config.witnessPrefixAllowList.cfg", "Config.witnessHostAllowList.cfg"):
+            aw = vlib.tlc("MCConfig", wcfg, workers=2, timeout=300)
+            if aw.violation != "NoUnlistedContextInStrict":
+                raise Inconclusive("the model does not distinguish how a context URL relates to the allow-list entries (%s: %s %s)" % (wcfg, aw.violation, aw.error))
         for a in ("Load", "Configure", "Start", "Act"):
             if not m.coverage.get(a):
                 raise Inconclusive("vacuity: action %s never fired (%s)" % (a, m.coverage))
@@ -291,6 +341,9 @@ def run(prop, tier, seed, replay=None):
         raise Inconclusive("descriptive model: %s %s\n%s" % (g.violation, g.error, g.raw[-2000:]))
     starts = sorted([p for p in g.printed if p["t"] == "start"], key=lambda p: json.dumps(p, sort_keys=True))
     acts = sorted([p for p in g.printed if p["t"] == "act"], key=lambda p: json.dumps(p, sort_keys=True))
+    near = [p for p in acts if p["act"]["kind"] == "jsonld" and p["act"]["anchor"] != "none"]
+    if {p["act"]["arg"] for p in near} != set(NEAR_TEMPLATES):
+        raise Inconclusive("spec and concretiser disagree on the near-miss context classes: %s" % sorted({p["act"]["arg"] for p in near}))
     if len(starts) < 2000 or len(acts) < 300:
         raise Inconclusive("TLC emitted only %d vectors / %d actions" % (len(starts), len(acts)))
     models.append(dict(cfg="Config.gen.cfg", states=g.distinct, transitions=g.generated, vectors=len(starts), actions=len(acts), wall_s=round(g.wall, 1)))
@@ -366,6 +419,15 @@ def run(prop, tier, seed, replay=None):
                         u = rnd.choice(EMBEDDED_CONTEXTS) if ctx == "embedded" else "http://{PLAIN}/ctx/%s-%s-%d-%d.jsonld" % (ctx, al, int(strict), n)
                         jacts.append(dict(kind="jsonld", arg=ctx, entry=al, url=u))
             add("jsonld", dict(base, strict=strict, dummy=False), dict(strict=strict), acts_=jacts, pred=dict(accepted=True, by="", why=""))
+            # every (relation, anchor, allow-list) case TLC enumerated, every template, two entries of the anchor's kind
+            nacts_ = {}
+            for p in near:
+                if bool(p["strict"]) == strict and not p["dummy"]:
+                    nacts_.setdefault(p["act"]["arg"], [])
+                    nacts_[p["act"]["arg"]] += near_acts(p, [(ti, ei) for ti in range(len(NEAR_TEMPLATES[p["act"]["arg"]])) for ei in ((0, 1, 2, 3) if not quick else (rnd.randrange(4), rnd.randrange(4) + 4))],
+                                        operator=OPERATOR_ENTRIES)
+            for rel in sorted(nacts_):     # one case per relation: a replay holds one class
+                add("jsonld", dict(base, strict=strict, dummy=False), dict(strict=strict), acts_=nacts_[rel], pred=dict(accepted=True, by="", why=""), start=False)
         for e in OUT_ENTRIES + EARLY:
             oacts = [dict(kind="outbound", arg=cls, entry=e, url=u) for cls in sorted(OUT_URLS) for u in OUT_URLS[cls]]
             add("outbound", dict(base, strict=strict, dummy=False), dict(strict=strict), acts_=oacts, pred=dict(accepted=True, by="", why=""), start=False)
@@ -403,7 +465,7 @@ def run(prop, tier, seed, replay=None):
         for _ in range(1 if quick else 2):     # thorough: two concretisations (URL variant, channels, actions) of every vector
             c = add("system", v, None)
             c["vec"] = concrete_vec(v, rnd)
-            c["acts"] = system_acts(v, rnd, c["id"])
+            c["acts"] = system_acts(v, rnd, c["id"], near=[p for p in near if bool(p["strict"]) == bool(v["strict"]) and bool(p["dummy"]) == bool(v["dummy"])])
     rnd.shuffle(cases)   # balance the shards
     results = execute(binary, [dict(id=c["id"], layer=c["layer"], vec=c["vec"], acts=c["acts"]) for c in cases], seed)
     if len(results) != len(cases):
@@ -429,6 +491,8 @@ def run(prop, tier, seed, replay=None):
         for n, a in enumerate(r.get("acts", [])):
             # the URL as written in the class tables (the driver adds a per-action marker that must not count as a distinct case)
             orig = c["acts"][n]["url"] if n < len(c["acts"]) and a["kind"] == "outbound" else ""
+            if a["kind"] == "jsonld" and a.get("anchor"):
+                orig = [a["anchor"], c["acts"][n]["url"] if n < len(c["acts"]) else "", a.get("near_to")]   # template and entry, not the per-action label
             distinct.add(json.dumps([c["layer"], c["x"]["strict"], c["x"].get("dummy"), a["kind"], a["arg"], a["entry"], orig], sort_keys=True))
         if c["layer"] == "system":
             if c["x"]["strict"] and r["accepted"]:
@@ -477,7 +541,8 @@ def run(prop, tier, seed, replay=None):
                drift=ndrift, notes=nnotes, cases_matching_only_the_prescriptive_design=repaired, models=models, samples=samples,
                rule="TLC enumerates the complete product of Config.tla: %d configuration vectors (strictmode x 7 public URL classes x tls on/off/offload x "
                     "crypto.storage x storage.sql.connection x dummy validator x IRMA scheme x 3 didmethods sets, plus moved keys x secrets x channel over a "
-                    "secure and an insecure base) and %d (strict, dummy, action) cases (dummy sign/verify, JSON-LD context class x allow-list, 21 outbound "
+                    "secure and an insecure base) and %d (strict, dummy, action) cases (dummy sign/verify, JSON-LD context class x allow-list, 9 near-miss relations of a context URL to an allow-list entry [ext-path/name/query/host/userinfo, truncated, same-host, "
+                    "scheme-http, embeds] x 3 entry kinds [remote+mapped default, localmapping-only, operator-added], 21 outbound "
                     "entry points x 6 URL classes: 13 with clients built on demand, 5 through the long-lived clients vdr / vcr / discovery build in their own "
                     "Configure before http.Engine.Configure switches client.StrictMode on, 3 through clients built before anything is configured); invariants proven for the transcribed guards. Every engine's full local product runs on the real "
                     "engine's Configure (all concrete URL variants); the assembled cmd.CreateSystem is loaded through the real flag set / environment / yaml "
@@ -490,6 +555,11 @@ def run(prop, tier, seed, replay=None):
                          "crypto.storage backends other than fs (vault, azure, external) and SQL servers other than sqlite need external services and are not exercised",
                          "the assembled system is driven through cmd.CreateSystem/CreateCommand + System.Load/Configure/Migrate/Start, i.e. the body of "
                          "cmd/root.go startServer re-enacted (logrus.Fatal would end the process); a check added to startServer itself would be missed",
+                         "JSON-LD context fetches are observed at the dialer of http.DefaultTransport (json-gold's default loader uses http.DefaultClient), replaced by a "
+                         "recording transport that lands every non-loopback connection on the local servers; near-miss context URLs are derived by the driver from the "
+                         "allow-list of the real engine (jsonld.DefaultContextConfig + operator entries); fragment / trailing-slash / letter-case variants of an entry "
+                         "are deliberately not classified (a normalising comparison would be right to accept them); the loader is exercised through "
+                         "JSONLD.DocumentLoader().LoadDocument, not through the expansion of a received credential",
                          "outbound requests are observed at the dialer of the repo's HTTP transport, rerouted to local servers; 'performed' = a connection attempt left the node",
                          "long-lived clients are reached through the running engines: did:web resolution (vdr), credential verification with a StatusList2021 entry (vcr), "
                          "a forwarded discovery Get (definitions generated per URL, discovery.client.refresh_interval=0), and the two OpenID4VCI clients of vcr through "
